@@ -136,6 +136,21 @@ def relerr(a, b):
     return float(np.max(d)) / scale
 
 
+# closest approach of any tolerance comparison of the running case to its tolerance (largest error / tolerance seen, capped at 1):
+# reset by the engine before every case, reported in the evidence, and - in the thorough tier - handed to hypothesis.target() so that the
+# search climbs towards inputs with larger numerical error instead of only sampling them
+APPROACH = [0.0]
+
+
+def note_approach(err, tol):
+    try:
+        r = float(err) / float(tol) if tol > 0 else 0.0
+    except Exception:      # noqa
+        return
+    if r == r and r > APPROACH[0]:
+        APPROACH[0] = min(r, 1.0)
+
+
 def check_close(a, b, rtol, bucket, what='', atol=0.0):
     """|a-b| <= rtol*max|b| + atol everywhere, shapes equal."""
     a = np.asarray(a)
@@ -148,6 +163,8 @@ def check_close(a, b, rtol, bucket, what='', atol=0.0):
     tol = rtol * max(scale, 1e-300) + atol
     d = np.abs(a - b)
     bad = ~(d <= tol)
+    if not bad.any():
+        note_approach(np.max(d), tol)
     if bad.any():
         # identical non-finite entries are equal
         same_nonfinite = (np.isnan(a) & np.isnan(b)) | ((a == b) & ~np.isfinite(b))
